@@ -655,7 +655,50 @@ def compare(op: str, lhs, rhs) -> T:
     if cv is not None:
         val = {"<": cv < 0, "<=": cv <= 0, "==": cv == 0, "!=": cv != 0}[op]
         return TRUE if val else FALSE
+    if op in ("<", "<="):
+        z = _count_vs_zero(op, d)
+        if z is not None:
+            return z
     return Cmp(op, d)
+
+
+def _is_count(a: T) -> bool:
+    """Atoms whose value is a non-negative integer: len(x), numpy.ndim(x), x.ndim, x.size, numpy.size(x)."""
+    if isinstance(a, App) and a.fn in ("len", "numpy.ndim", "numpy.size", "builtins.len") and len(a.args) == 1:
+        return True
+    return isinstance(a, Attr) and a.name in ("ndim", "size")
+
+
+def _count_vs_zero(op: str, d: "Poly"):
+    """`n < 1`, `n <= 0`, `not n >= 1` say n == 0 and `n > 0`, `n >= 1`, `1 <= n` say n != 0 when n is a count (a non-negative
+    integer): one canonical form for the emptiness / scalar-ness tests however they are written."""
+    if len(d.terms) > 2:
+        return None
+    atom = coef = None
+    c0 = Fraction(0)
+    for m, co in d.terms:
+        if m == ():
+            c0 = co
+        elif len(m) == 1 and m[0][1] == 1 and _is_count(m[0][0]) and atom is None:
+            atom, coef = m[0][0], co
+        else:
+            return None
+    if atom is None or coef not in (1, -1) or c0 != int(c0):
+        return None
+    n = _poly(atom)
+    if coef == 1:
+        bound = -c0 if op == "<=" else -c0 - 1        # n <= bound
+        if bound < 0:
+            return FALSE
+        if bound == 0:
+            return Cmp("==", n)
+        return None
+    bound = c0 if op == "<=" else c0 + 1               # n >= bound
+    if bound <= 0:
+        return TRUE
+    if bound == 1:
+        return Cmp("!=", n)
+    return None
 
 
 def upper_bound(g: T, x: T):
@@ -874,9 +917,30 @@ def index(base: T, idx: Tuple[T, ...], ranks: Optional[RankEnv] = None) -> T:
 
 # ---------------------------------------------------------------------------
 # applications with a few justified rewrites
+# leading parameters of library functions: an argument passed by its keyword is the positional argument (`np.zeros(shape=s)` is
+# `np.zeros(s)`, `np.sum(a=x)` is `np.sum(x)`); only names listed here are moved, in order, when the positions before them are filled
+LEADING_PARAMS = {
+    "numpy.zeros": ("shape",), "numpy.ones": ("shape",), "numpy.empty": ("shape",), "numpy.full": ("shape", "fill_value"),
+    "numpy.zeros_like": ("a",), "numpy.ones_like": ("a",), "numpy.empty_like": ("prototype",), "numpy.full_like": ("a", "fill_value"),
+    "numpy.sum": ("a",), "numpy.mean": ("a",), "numpy.median": ("a",), "numpy.cov": ("m",), "numpy.diag": ("v",),
+    "numpy.diagonal": ("a",), "numpy.transpose": ("a",), "numpy.copy": ("a",), "numpy.abs": ("x",), "numpy.absolute": ("x",),
+    "numpy.sqrt": ("x",), "numpy.log": ("x",), "numpy.square": ("x",), "numpy.dot": ("a", "b"), "numpy.matmul": ("x1", "x2"),
+    "numpy.vstack": ("tup",), "numpy.hstack": ("tup",), "numpy.concatenate": ("arrays",), "numpy.triu_indices": ("n",),
+    "numpy.argmin": ("a",), "numpy.argmax": ("a",), "numpy.min": ("a",), "numpy.max": ("a",), "numpy.trace": ("a",),
+    "numpy.count_nonzero": ("a",), "numpy.ndim": ("a",), "numpy.array": ("object",), "numpy.asarray": ("a",),
+    "numpy.linalg.eigh": ("a",), "numpy.linalg.slogdet": ("a",), "numpy.linalg.det": ("a",), "numpy.linalg.inv": ("a",),
+    "numpy.linalg.norm": ("x",), "numpy.linalg.cholesky": ("a",), "random.sample": ("population", "k"),
+    "numpy.isclose": ("a", "b"), "numpy.allclose": ("a", "b"), "numpy.outer": ("a", "b"),
+}
+
+
 def make_app(fn: str, args, kw=None) -> T:
     args = [as_term(a) for a in args]
     kw = dict(kw or {})
+    lead = LEADING_PARAMS.get(fn)
+    if lead and kw:
+        while len(args) < len(lead) and lead[len(args)] in kw:
+            args.append(as_term(kw.pop(lead[len(args)])))
     if fn in ("numpy.square",) and len(args) == 1:
         return mul(args[0], args[0])
     if set(kw) == {"out"} and fn in ("numpy.negative", "numpy.add", "numpy.subtract", "numpy.multiply"):
@@ -1164,6 +1228,136 @@ def piecewise(pieces) -> T:
             return Or([negate(g), a])
         return choose(g, a, b)
     return PW(ps)
+
+
+VALUE_COPIES = ("numpy.copy", "copy.copy", "copy.deepcopy")
+
+
+def strip_copies(t: T) -> T:
+    """The same term with value-preserving copies removed (`np.copy(x)`, `x.copy()`, `copy.copy(x)` denote the value of x).  For
+    comparing *values* only: whether a copy is taken matters to the ownership analysis, not to a formula."""
+    t = as_term(t)
+    if not any(isinstance(x, App) and x.fn in VALUE_COPIES for x in subterms(t)):
+        return t
+
+    def walk(u):
+        if isinstance(u, App) and u.fn in VALUE_COPIES and len(u.args) == 1 and not u.kw:
+            return walk(u.args[0])
+        return u
+    mapping = {}
+    for x in subterms(t):
+        if isinstance(x, App) and x.fn in VALUE_COPIES and len(x.args) == 1 and not x.kw:
+            mapping[x.key] = walk(x)
+    out = t
+    for _ in range(4):
+        nxt = substitute(out, mapping)
+        if nxt == out:
+            break
+        out = nxt
+    return out
+
+
+def unshallow(t: T) -> T:
+    """Field reads through a fresh shallow copy are reads of the original's fields (the same objects): rewrite
+    `C.shallow_copy(x).f` to `x.f` everywhere in a term that only *reads*."""
+    t = as_term(t)
+    mapping = {}
+    for x in subterms(t):
+        if isinstance(x, Attr) and isinstance(x.base, App) and x.base.fn.endswith(".shallow_copy") and len(x.base.args) == 1 and not x.base.kw:
+            mapping[x.key] = Attr(x.base.args[0], x.name)
+    if not mapping:
+        return t
+    out = t
+    for _ in range(3):
+        nxt = substitute(out, mapping)
+        if nxt == out:
+            break
+        out = nxt
+    return out
+
+
+def truth(g: T):
+    """True / False when the guard has a value after constant folding, None otherwise."""
+    if isinstance(g, Lit) and isinstance(g.value, bool):
+        return g.value
+    if isinstance(g, And):
+        vs = [truth(p) for p in g.parts]
+        if any(v is False for v in vs):
+            return False
+        return True if all(v is True for v in vs) else None
+    if isinstance(g, Or):
+        vs = [truth(p) for p in g.parts]
+        if any(v is True for v in vs):
+            return True
+        return False if all(v is False for v in vs) else None
+    if isinstance(g, Not):
+        v = truth(g.arg)
+        return None if v is None else (not v)
+    return None
+
+
+def _thresholds(g: T, x: T):
+    """The integers around which a guard over the single integer unknown x can change its value; None when some comparison in the
+    guard is not of the form a*x + c OP 0 with rational constants (then nothing is decided)."""
+    import math
+    pts = set()
+    for c in subterms(g):
+        if isinstance(c, Cmp):
+            p = c.poly
+            a = b = Fraction(0)
+            for m, co in p.terms:
+                if m == ():
+                    b = co
+                elif len(m) == 1 and m[0][0] == x and m[0][1] == 1:
+                    a = co
+                else:
+                    return None
+            if a == 0:
+                return None
+            r = -b / a
+            pts.update({math.floor(r) - 1, math.floor(r), math.floor(r) + 1, math.ceil(r), math.ceil(r) + 1})
+        elif not isinstance(c, (And, Or, Not, Lit, Poly, Sym)) and _boolish(c):
+            return None
+    return pts
+
+
+def pw_equiv(a: T, b: T, x: T, lo=None, hi=None) -> bool:
+    """Do the two (piecewise) terms denote the same function of the integer x on lo <= x (<= hi)?  Decided exactly when every guard is
+    a Boolean combination of comparisons of x with constants: between two consecutive thresholds every guard is constant, so it is
+    enough to look at the integers around the thresholds.  `i == 0 -> 0, i != 0 -> e[i-1]` and `i >= 1 -> e[i-1], else 0` agree on
+    i >= 0.  Anything else falls back to structural equality."""
+    a, b = as_term(a), as_term(b)
+    if a == b:
+        return True
+    pa, pb = pieces_of(a), pieces_of(b)
+    pts = set()
+    for g, _v in pa + pb:
+        if truth(g) is True:
+            continue
+        t = _thresholds(g, x)
+        if t is None:
+            return False
+        pts |= t
+    if lo is not None:
+        pts = {p for p in pts if p >= lo} | {lo}
+    if hi is not None:
+        pts = {p for p in pts if p <= hi} | {hi}
+    if not pts:
+        pts = {0}
+
+    def at(pieces, p):
+        hit = [v for g, v in pieces if truth(substitute(g, {x.key: const(p)})) is True]
+        und = [v for g, v in pieces if truth(substitute(g, {x.key: const(p)})) is None]
+        if len(hit) != 1 or und:
+            return None
+        return hit[0]
+    for p in sorted(pts):
+        va, vb = at(pa, p), at(pb, p)
+        if va is None or vb is None:
+            return False
+        if va != vb and substitute(va, {x.key: const(p)}) != substitute(vb, {x.key: const(p)}):
+            return False
+    return True
 
 
 def pieces_of(t: T) -> List[Tuple[T, T]]:
